@@ -1,12 +1,12 @@
 #!/bin/bash
 # re-evaluate every seeded change with the current engine; writes /verif/seeded/RESULTS.txt
 cd /verif
-declare -A extra=( [C01-m2]="C13" [C02-m2]="C13" [C05-m1]="C13" [C04-m2]="C13" [C14-m2]="C13" [C13-m1]="C02" [C01-m1]="C02" [C15-m1]="C03 C02" [C15-m2]="C03" [C03-m1]="C15" [C08-m2]="C02" [C02-m1]="C08" [C06-m2]="C07" [C07-m2]="C06" [C10-m2]="C03" [pinned-D1]="C02 C03 C15" [pinned-D2D3]="C16 C14")
+declare -A extra=( [C01-m2]="C13" [C02-m2]="C13" [C05-m1]="C13" [C04-m2]="C13" [C14-m2]="C13" [C13-m1]="C02" [C01-m1]="C02" [C15-m1]="C03 C02" [C15-m2]="C03" [C03-m1]="C15" [C08-m2]="C02" [C02-m1]="C08" [C06-m2]="C07" [C07-m2]="C06" [C10-m2]="C03" [pinned-D1]="C02 C03 C15" [pinned-D2D3]="C16 C14" [r2-C09-m2]="C14" [r2-C03-m1]="C02" [r2-C03-m3]="C15" [r2-C02-m1]="C10" [r2-C13-m1]="C04" [r2-C13-m2]="C02" [r2-C01-m1]="C08" [r2-C05-m1]="C01" [r2-C05-m2]="C01")
 : > seeded/RESULTS.txt
 for d in seeded/*/; do
   n=$(basename $d)
   [ -f $d/patch.diff ] || continue
-  own=${n%%-*}
+  own=${n#r2-}; own=${own%%-*}
   checks="$own ${extra[$n]}"
   case $n in pinned-*) checks="${extra[$n]}";; esac
   echo "== $n" | tee -a seeded/RESULTS.txt
